@@ -59,13 +59,13 @@ func runQuoteCase(c *Ctx, st string, q rune, what string, text []rune) {
 					oracle = "decoded token value differs from the original"
 				}
 			}
-			if st != "g" && oracle == "" && q < 0xffff {
+			if st != "g" && oracle == "" && q < 0xffff && !(st == "c" && q == ',') && !(st == "e" && q == '+') {
 				// … and through the tokenizer that owns such a state, configured with q as its quote character
 				kind := fmt.Sprintf("c:44:%d", q)
 				tail := ",x"
 				if st == "e" {
 					kind = fmt.Sprintf("Ke|D:%d:%d:q", q, q)
-					tail = " x"
+					tail = "+x"
 				}
 				for _, o := range []int{0, 64} {
 					toks, status := tokenizeImpl(kind, o, enc+tail)
@@ -129,7 +129,7 @@ func runQuoteCase(c *Ctx, st string, q rune, what string, text []rune) {
 
 func propC14(c *Ctx) {
 	states := []string{"g", "e", "c"}
-	quotes := []rune{'\'', '"', 0xab, 0x201c, 0x100, 0xff, 0x101, 0x1f600, 0xfffd, '`', '\\'}
+	quotes := []rune{'\'', '"', 0xab, 0x201c, 0x100, 0xff, 0x101, 0x1f600, 0xfffd, '`', '\\', ' ', '\t', 'a', '0', ','}
 	maxL := 4
 	if c.Thorough {
 		maxL = 6
